@@ -235,6 +235,46 @@ class TimeStub:
         return _t.mktime(st)
 
 
+class _ParsedDT:
+    """stands for the datetime a strptime-style routine returns for a rendered date token: naive (its timestamp() is read as LOCAL time,
+    as the standard library documents) until a tzinfo is attached"""
+
+    def __init__(self, seconds: SInt, aware: bool = False):
+        self.seconds, self.aware = seconds, aware
+        self.tzinfo = None
+
+    def timestamp(self):
+        return self.seconds if self.aware else SInt(term_of(self.seconds) - UTC_OFFSET)
+
+    def replace(self, **kw):
+        if set(kw) - {"tzinfo"}:
+            raise cur()._raise(Unsupported("datetime.replace of date fields on a parsed date token"))
+        return _ParsedDT(self.seconds, kw["tzinfo"] is not None)
+
+    def astimezone(self, tz=None):
+        return _ParsedDT(self.timestamp(), True)
+
+
+class DatetimeStub:
+    """stands for the `datetime` module or class, should the current source parse the date with it (the unchanged tree does not)"""
+
+    def __getattr__(self, k):
+        import datetime as _d
+        return getattr(_d, k) if hasattr(_d, k) else getattr(_d.datetime, k)
+
+    @property
+    def datetime(self):
+        return self
+
+    @staticmethod
+    def strptime(s, fmt):
+        t = cur().term_of_text(s) if isinstance(s, str) and s and not s[0].isdigit() else None
+        if t is not None:
+            return _ParsedDT(SInt(t), "%z" in fmt)
+        import datetime as _d
+        return _d.datetime.strptime(s, fmt)
+
+
 def timegm_stub(st):
     if isinstance(st, _Struct):
         return st.seconds
@@ -274,6 +314,8 @@ def make_shims(osh: OsShim) -> Shims:
     s = Shims()
     s.add(R, sha1=GuardedSha1)
     s.add(SF, os=osh, parsedate_to_datetime=parsedate_stub, int=int_seconds, parsedate=parsedate_tuple_stub, time=TimeStub(), timegm=timegm_stub)
+    if hasattr(SF, "datetime"):
+        s.add(SF, datetime=DatetimeStub())
     s.add(R, formatdate=formatdate_stub)
     return s
 
